@@ -6,7 +6,7 @@
 From Coq Require Import ZArith List Bool Lia.
 Import ListNotations.
 Require Import Base.Py Base.ZList Gen.Gen_tags Model.Splice Model.Fam_flac
-  Proofs.Fam_flac_codec Proofs.Fam_flac_walk Proofs.Fam_flac_save Proofs.Fam_flac_thms Proofs.Fam_flac_final Proofs.Fam_flac_session Proofs.Fam_flac_examples.
+  Proofs.Fam_flac_codec Proofs.Fam_flac_walk Proofs.Fam_flac_save Proofs.Fam_flac_thms Proofs.Fam_flac_final Proofs.Fam_flac_session Proofs.Fam_flac_extra Proofs.Fam_flac_examples.
 Open Scope Z_scope.
 
 Theorem C03_flac_wf_parses : forall f, flac_wf f = true -> exists s, flac_parse f = Ok s /\ struct_wf s = true.
@@ -62,13 +62,23 @@ Theorem C03_flac_session_step : forall s o, sess_inv s ->
 Proof. exact sess_step_inv. Qed.
 Print Assumptions C03_flac_session_step.
 
-(* with deleteid3=True the statement is false for files with fewer than 128 bytes of audio: the ID3v1 test looks at the
-   last 128 bytes of the file, which then lie inside the metadata blocks (concrete file: STREAMINFO + 10 audio bytes,
-   title = "TAG" + 111 bytes, padding 0; the 192-byte result is cut to 64 bytes).  Hence o_deleteid3 o = false above. *)
-Theorem C03_flac_deleteid3_refuted : exists f t o f', flac_wf f = true /\ vc_valid t = true /\ o_deleteid3 o = true /\
-  flac_save f t o = Ok f' /\ flac_wf f' = false /\ flac_load f' = Raise EMutagen.
-Proof. exact deleteid3_short_refuted. Qed.
-Print Assumptions C03_flac_deleteid3_refuted.
+(* with deleteid3=True as well: the ID3v2 prefix goes, an ID3v1 trailer is cut off the audio only, the file stays
+   well-formed and the tags read back *)
+Theorem C03_flac_save_deleteid3 : forall f t o f', flac_wf f = true -> o_deleteid3 o = true -> flac_save f t o = Ok f' ->
+  flac_wf f' = true /\ flac_load f' = Ok (Some t).
+Proof. exact final_deleteid3_wf. Qed.
+Print Assumptions C03_flac_save_deleteid3.
+
+(* regression for the defect fixed in /repo (the ID3v1 test of deleteid3 used to look into the metadata blocks of a file
+   with fewer than 128 bytes of audio: STREAMINFO + 10 audio bytes, title = "TAG" + 111 bytes, padding 0 was cut from 192
+   to 64 bytes).  The former witness of C03_flac_deleteid3_refuted now stays whole. *)
+Example C03_flac_ex_deleteid3_short_regression :
+  flac_wf ex_short = true /\ vc_valid ex_tagvalue = true /\
+  flac_save ex_short ex_tagvalue (mkOpts (Some (cb_const 0)) true) = flac_save ex_short ex_tagvalue (mkOpts (Some (cb_const 0)) false) /\
+  zlen (get [] (flac_save ex_short ex_tagvalue (mkOpts (Some (cb_const 0)) true))) = 192 /\
+  flac_wf (get [] (flac_save ex_short ex_tagvalue (mkOpts (Some (cb_const 0)) true))) = true /\
+  flac_load (get [] (flac_save ex_short ex_tagvalue (mkOpts (Some (cb_const 0)) true))) = Ok (Some ex_tagvalue).
+Proof. exact ex_deleteid3_short_regression. Qed.
 
 Example C03_flac_ex_wf : flac_wf ex_file = true /\ flac_wf ex_notags = true.
 Proof. exact ex_wf. Qed.
